@@ -40,6 +40,23 @@ ASSUME PrintT(<<"points with image abscissa 0", Len(ZeroXPts)>>)
 ASSUME \A i \in 1..Len(ZeroXPts) :
           LET I == Iso("G1", ZeroXPts[i]) IN E1p!OnCurve(ZeroXPts[i]) /\ Len(I) = 2 /\ I[1] = Zero /\ E1!OnCurve(I)
 
+(* points lying on BOTH curves (E1' and E1 agree where A'x + B' = 4): a membership test of the   *)
+(* target curve cannot tell "already mapped" from "not yet mapped" on them                          *)
+CommonX == FqMul(FqSub(Four, E1pB), FqInv(E1pA))
+CommonPts == LET g == EpRhs("G1", CommonX)  y == FqSqrtCand(g) IN
+             IF FqSqr(y) = g THEN << <<CommonX, y>>, <<CommonX, FqNeg(y)>> >> ELSE <<>>
+ASSUME PrintT(<<"points on both curves", Len(CommonPts)>>)
+ASSUME \A i \in 1..Len(CommonPts) : E1p!OnCurve(CommonPts[i]) /\ E1!OnCurve(CommonPts[i])
+                                      /\ Iso("G1", CommonPts[i]) # CommonPts[i]
+(* points whose image has the SAME abscissa as the point itself: xnum(x) = x xden(x) *)
+FixRoots == RootsOf(DistinctRootPart(PSub(Iso1XNUM, PMul(PX, Iso1XDEN))), 1)
+FixXPts == FlattenSeq([i \in 1..Len(FixRoots) |->
+              LET g == EpRhs("G1", FixRoots[i])  y == FqSqrtCand(g) IN
+              IF FqSqr(y) = g /\ PolyEval("G1", Iso1XDEN, FixRoots[i]) # Zero
+              THEN << <<FixRoots[i], y>>, <<FixRoots[i], FqNeg(y)>> >> ELSE <<>>])
+ASSUME PrintT(<<"points with image abscissa = own abscissa", Len(FixXPts)>>)
+ASSUME \A i \in 1..Len(FixXPts) : Iso("G1", FixXPts[i])[1] = FixXPts[i][1]
+
 Lam(i) == FqPow(<<5>>, FromInt(91 + i))
 Jac(P, i) == IF i = 0 THEN <<P[1], P[2], One>>
              ELSE LET l == Lam(i) l2 == FqSqr(l) IN <<FqMul(P[1], l2), FqMul(P[2], FqMul(l2, l)), l>>
@@ -55,6 +72,13 @@ Script ==
   \o FlattenSeq([i \in 1..Len(ZeroXPts) |->
        << [op |-> "iso", g |-> "G1", p |-> Jac(ZeroXPts[i], 0), cls |-> "image-abscissa-zero"],
           [op |-> "iso", g |-> "G1", p |-> Jac(ZeroXPts[i], i + 60), cls |-> "image-abscissa-zero-rescaled"] >>])
+  \o FlattenSeq([i \in 1..Len(CommonPts) |->
+       << [op |-> "iso", g |-> "G1", p |-> Jac(CommonPts[i], 0), cls |-> "on-both-curves"],
+          [op |-> "iso", g |-> "G1", p |-> Jac(CommonPts[i], i + 70), cls |-> "on-both-curves-rescaled"],
+          [op |-> "iso_hom", g |-> "G1", p |-> Jac(CommonPts[i], i + 72), q |-> Jac(Generic(i + 11), 0), cls |-> "on-both-curves-plus-generic"] >>])
+  \o FlattenSeq([i \in 1..Len(FixXPts) |->
+       << [op |-> "iso", g |-> "G1", p |-> Jac(FixXPts[i], 0), cls |-> "image-abscissa-unchanged"],
+          [op |-> "iso", g |-> "G1", p |-> Jac(FixXPts[i], i + 80), cls |-> "image-abscissa-unchanged-rescaled"] >>])
 
 ASSUME ndJsonSerialize(OutDir \o "/iso-kernel-100.script.ndjson", SubSeq(Script, 1, 16))
 ASSUME ndJsonSerialize(OutDir \o "/iso-kernel-101.script.ndjson", SubSeq(Script, 17, 31))
